@@ -108,6 +108,14 @@ Theorem C16_sweep_negative_duration_refuted :
 Proof. exact sweep_negative_duration_refuted. Qed.
 Print Assumptions C16_sweep_negative_duration_refuted.
 
+(* "plays `steps` tones" fails for steps <= 0: the count is clamped to 1 (sweep(440, 880, 50, steps=0)) *)
+Theorem C16_sweep_nonpositive_steps_refuted :
+  exists pin neg tbl st s e d steps,
+    c_int steps <= 0 /\
+    length (tones (snd (dstep pin neg tbl st (Sweep s e d steps)))) = 1%nat.
+Proof. exact sweep_nonpositive_steps_refuted. Qed.
+Print Assumptions C16_sweep_nonpositive_steps_refuted.
+
 (* ---- melody: the generated emitter table plays the pinned score, note by note, at
    60000 / tempo ms per beat; tempo missing or <= 0 => the tune's default tempo *)
 Theorem C16_melody : forall pin neg st name tempo t0 seq,
